@@ -218,8 +218,9 @@ theorem qGood_holds (target : MG Name) (ds : List Domain) (o c : Event)
     rcases List.mem_append.1 hp with h | h
     · exact List.mem_append_right _ h
     · exact List.mem_append_left _ h
-  obtain ⟨D, dstar', dNames', _, h2', hDn, hfacts⟩ := line2C_ok target hwf o c
+  obtain ⟨lk, D, dstar', dNames', _, _, _, _, h2', hDn, hfacts⟩ := line2C_ok target hwf o c
     (fun p hp => hok p (List.mem_append_left _ hp)) (fun p hp => hok p (List.mem_append_right _ hp))
+    (fun p hp => (hplain p (List.mem_append_left _ hp)).1)
   rw [h2] at h2'
   simp only [Except.ok.injEq, Prod.mk.injEq] at h2'
   obtain ⟨rfl, rfl⟩ := h2'
@@ -267,6 +268,7 @@ theorem popsCover_of_validateC (target : MG Name) (ds : List Domain) (o c : Even
     (hv : validateC target ds o c = .ok ()) : PopsCoverNodes target ds := by
   obtain ⟨_, _, _, _, _, _, h⟩ := validateC_facts target ds o c hv
   unfold validateCommon vErr at h
+  obtain ⟨_, h⟩ := ite_error_ok h
   obtain ⟨_, h⟩ := ite_error_ok h
   obtain ⟨_, h⟩ := ite_error_ok h
   obtain ⟨_, h⟩ := ite_error_ok h
